@@ -24,20 +24,27 @@ Theorem C01_parser_correct : forall e f c,
     NoDup (am_keys (a_ptrs a)) /\ NoDup (am_keys (a_text a)) /\ NoDup (am_keys (a_labels a)).
 Proof. exact parser_correct. Qed.
 
+(* [kf] below is the SORT KEY of label names (Model/BinFormat.v name_key): the library orders the label table of a
+   big-endian archive by the names as Rust Strings (Unicode scalar order of the DECODED names, bin_archive.rs
+   labels.sort_by), the model by the keys kf assigns to the encoded names; serialize_k kf is the library's function for
+   kf = "scalars of the decoded name" (that is what ./check C01 passes to the extracted model, from the library's own
+   decoder).  Every theorem of this file holds for EVERY key function - no injectivity or any other property of kf is
+   needed: the format relation does not fix the order of the label table and the addresses of a label map are distinct. *)
+
 (* serialize succeeds on every archive of the property's domain and its image conforms to the format for the
    PUBLISHED content: the archive's own strings, pointers and labels, the data with every annotated cell
    filled in followed by the padded c-string pool, and one pointer into the pool per pending c-string.
    [wf_archive] (Proofs/BinSerializeConforms.v) is the property's quantifier: at most one annotation per cell,
    cells inside the data and not overlapping, targets and labels <= size, NUL-free well-formed strings,
    non-empty buckets; no alignment of the data length.  [fits32]: the image is smaller than 4 GiB. *)
-Theorem C01_serialize_conforms : forall m a, wf_archive a -> fits32 a ->
-  exists f, serialize m a = Ok f /\ wfb f /\ conforms (a_endian a) f (published a).
+Theorem C01_serialize_conforms : forall kf m a, wf_archive a -> fits32 a ->
+  exists f, serialize_k kf m a = Ok f /\ wfb f /\ conforms (a_endian a) f (published kf a).
 Proof. exact serialize_conforms. Qed.
 
 (* the serialized image is itself well-formed: header totals exact, every table entry and label name inside
    the file, tables word-aligned whenever the data is (c-string pool included) *)
-Theorem C01_image_wellformed : forall m a f, wf_archive a -> fits32 a -> serialize m a = Ok f ->
-  let d := c_data (published a) in let e := a_endian a in
+Theorem C01_image_wellformed : forall kf m a f, wf_archive a -> fits32 a -> serialize_k kf m a = Ok f ->
+  let d := c_data (published kf a) in let e := a_endian a in
   exists ptab ltab txt,
     f = enc e 4 (lenN f) ++ enc e 4 (lenN d) ++ enc e 4 (lenL ptab) ++ enc e 4 (lenL ltab) ++ zeros 16
         ++ d ++ u32s e ptab ++ u32s e (flat ltab) ++ txt /\
@@ -50,10 +57,10 @@ Proof. exact serialize_image_wellformed. Qed.
 (* the round trip: same size (plus the pool the format appends; nothing without c-strings), same raw bytes
    outside annotated cells, same strings, pointers, labels in per-address order, every pending c-string
    readable at its cell - in either endianness, strings and c-strings mixed *)
-Theorem C01_round_trip : forall m a,
+Theorem C01_round_trip : forall kf m a,
   wf_archive a -> fits32 a ->
   exists f a',
-    serialize m a = Ok f /\ wfb f /\ from_bytes (a_endian a) f = Ok a' /\
+    serialize_k kf m a = Ok f /\ wfb f /\ from_bytes (a_endian a) f = Ok a' /\
     a_endian a' = a_endian a /\ a_cstrs a' = [] /\
     size a' = size a + lenN (pool_bytes a) /\ lenN (pool_bytes a) mod 4 = 0 /\ (a_cstrs a = [] -> size a' = size a) /\
     (forall i, (i < N.to_nat (size a))%nat -> outside (cells a) i -> nth_error (a_data a') i = nth_error (a_data a) i) /\
@@ -112,14 +119,14 @@ Proof. vm_compute. eexists. repeat split. Qed.
    multiple of 4, and the sizes are EQUAL whenever no c-string is pending. *)
 From Mila Require Import Proofs.BinRoundTripSize.
 Definition C01_same_size_full : Prop :=
-  forall m a f a', wf_archive a -> fits32 a -> serialize m a = Ok f -> from_bytes (a_endian a) f = Ok a' -> size a' = size a.
+  forall kf m a f a', wf_archive a -> fits32 a -> serialize_k kf m a = Ok f -> from_bytes (a_endian a) f = Ok a' -> size a' = size a.
 (* ex_archive: 14 data bytes and the c-string "cs" pending at cell 4; the parsed archive has 14 + |"cs\0" padded to 4| = 18 bytes *)
 Theorem C01_same_size_refuted :
-  exists m a f a', wf_archive a /\ fits32 a /\ serialize m a = Ok f /\ from_bytes (a_endian a) f = Ok a' /\
-                   size a = 14 /\ size a' = 18.
+  exists kf m a f a', wf_archive a /\ fits32 a /\ serialize_k kf m a = Ok f /\ from_bytes (a_endian a) f = Ok a' /\
+                      size a = 14 /\ size a' = 18.
 Proof. exact same_size_refuted. Qed.
-Theorem C01_same_size_partial : forall m a f a',
-  wf_archive a -> fits32 a -> serialize m a = Ok f -> from_bytes (a_endian a) f = Ok a' ->
+Theorem C01_same_size_partial : forall kf m a f a',
+  wf_archive a -> fits32 a -> serialize_k kf m a = Ok f -> from_bytes (a_endian a) f = Ok a' ->
   size a' = size a + lenN (pool_bytes a) /\ lenN (pool_bytes a) mod 4 = 0 /\ (a_cstrs a = [] -> size a' = size a).
 Proof. exact round_trip_size. Qed.
 
